@@ -315,10 +315,15 @@ class WP:
         if k == 'ConditionalOperator':
             c = self.conv(self.ev(inner[0]), 'Bool', 'bool').t
             g = self.guard
+            env0 = dict(self.env)
             self.guard = AND(g, c)
             a = self.ev(inner[1])
+            envA = self.env
+            self.env = dict(env0)
             self.guard = AND(g, NOT(c))
             b = self.ev(inner[2])
+            envB = self.env
+            self.env = self.merge(c, envA, envB)     # side effects of the selected branch only
             self.guard = g
             return V(ITE(c, a.t, b.t), a.s, a.c)
         if k in ('CallExpr', 'CXXOperatorCallExpr'):
@@ -383,8 +388,11 @@ class WP:
         if op in ('&&', '||'):
             a = self.conv(self.ev(inner[0]), 'Bool', 'bool').t
             g = self.guard
-            self.guard = AND(g, a if op == '&&' else NOT(a))
+            env0 = dict(self.env)
+            evald = a if op == '&&' else NOT(a)
+            self.guard = AND(g, evald)
             b = self.conv(self.ev(inner[1]), 'Bool', 'bool').t
+            self.env = self.merge(evald, self.env, env0)   # the right operand (and its side effects) only when evaluated
             self.guard = g
             return V(AND(a, b) if op == '&&' else OR(a, b), 'Bool', 'bool')
         a = self.ev(inner[0])
@@ -534,9 +542,9 @@ class WP:
             return
         if k == 'NullStmt':
             return
-        if k in ('ForStmt', 'WhileStmt'):
+        if k in ('ForStmt', 'WhileStmt', 'CXXForRangeStmt'):
             return self.loop(n)
-        if k in ('BreakStmt', 'ContinueStmt', 'DoStmt', 'SwitchStmt', 'CXXTryStmt', 'CXXForRangeStmt', 'GotoStmt'):
+        if k in ('BreakStmt', 'ContinueStmt', 'DoStmt', 'SwitchStmt', 'CXXTryStmt', 'GotoStmt'):
             raise Unsupported(f'{self.name}: statement kind {k}')
         for h in self.stmt_hooks:
             if h(self, n):
@@ -570,8 +578,12 @@ class WP:
         if inv is None:
             raise Unsupported(f'{self.name}: loop #{self.loops} has no invariant')
         inner = n['inner']
+        rangevar = None
         if n['kind'] == 'ForStmt':
             init, condvar, cond, inc, body = inner
+        elif n['kind'] == 'CXXForRangeStmt':
+            # iteration over an opaque container: unknown number of iterations, the element is bound by the decl hooks
+            init, cond, inc, rangevar, body = inner[0], None, None, inner[6], inner[7]
         else:
             init, cond, inc, body = None, inner[0], None, inner[1]
         if init:
@@ -594,12 +606,24 @@ class WP:
         invs = inv(self)
         for _, claim in invs:
             self.assume(claim)
-        c = self.conv(self.ev(cond), 'Bool', 'bool').t if cond else 'true'
+        for f in getattr(inv, 'assume_only', ()):     # stated assumptions at the loop head (listed in the spec's assumptions)
+            self.assume(f(self) if callable(f) else f)
+        if rangevar is not None:
+            c = self.fresh('Bool', 'more_elements').t
+        else:
+            c = self.conv(self.ev(cond), 'Bool', 'bool').t if cond else 'true'
         # arbitrary iteration
         self.guard = AND(g0, c)
+        if rangevar is not None:
+            self.ex(rangevar)
+        env_body0 = dict(self.env)
         self.ex(body)
         if inc:
             self.ev(inc)
+        body_post = getattr(inv, 'body_post', None)
+        if body_post:
+            for label, claim in body_post(self, env_body0, self.env):
+                self.oblige(f'loop {self.loops} body: {label}', claim, n)
         for label, claim in inv(self):
             self.oblige(f'loop {self.loops} invariant preserved: {label}', claim, n)
         dec = getattr(inv, 'decreases', None)
